@@ -334,6 +334,9 @@ class Container:
                 if name in self._data:
                     val = self._data[name]
                     if isinstance(val, np.ndarray):
+                        # Index the used part of the buffer: a negative
+                        # index counts back from the last stored point, not
+                        # from the end of the allocated capacity.
                         pt._data[name] = val[: self._size][idx]
         return pt
 
